@@ -296,6 +296,77 @@ example :
     (m.atoms.map fun a => residueMatches ["GLY".toList, "ALA".toList] s m a.res) = [true, false, false] := by
   decide
 
+/-- **From the request text to the residues**: a request written in the documented syntax for the
+parts `s` (chain / name / number in any combination, name not `nter`/`cter`) is read back as `s` and
+matches exactly the residues on which every given part agrees. -/
+theorem request_text_names_residues (protein : List Str) (s : Spec) (m : Mol) (r : ResKey)
+    (h : wellFormed s = true) (hn : isTerminalName s.resname = false) :
+    ∃ sp, parseSpec (formatSpec s) = .ok sp ∧ (residueMatches protein sp m r = true ↔ PlainMatch s r) :=
+  ⟨s, parse_format s h, matches_plain protein s m r (Or.inl hn)⟩
+
+/-- `AnnotateMutMod.__init__` parses every request text; it succeeds iff every text parses, and
+keeps order and targets. -/
+theorem parseRequests_spec (l : List (Str × Str)) (rs : List Request) :
+    parseRequests l = some rs ↔
+      rs.length = l.length ∧ ∀ i (h1 : i < l.length) (h2 : i < rs.length),
+        parseSpec l[i].1 = .ok rs[i].spec ∧ rs[i].target = l[i].2 := by
+  induction l generalizing rs with
+  | nil =>
+    cases rs with
+    | nil => simp [parseRequests]
+    | cons a t => simp [parseRequests]
+  | cons p rest ih =>
+    obtain ⟨str, tgt⟩ := p
+    unfold parseRequests
+    cases hp : parseSpec str with
+    | valueError =>
+      simp only [reduceCtorEq, false_iff]
+      rintro ⟨hl, hall⟩
+      cases rs with
+      | nil => simp at hl
+      | cons a t =>
+        have := (hall 0 (by simp) (by simp)).1
+        simp [hp] at this
+    | ok sp =>
+      simp only
+      cases hr : parseRequests rest with
+      | none =>
+        simp only [reduceCtorEq, false_iff]
+        rintro ⟨hl, hall⟩
+        cases rs with
+        | nil => simp at hl
+        | cons a t =>
+          have : parseRequests rest = some t := (ih t).mpr ⟨by simpa using hl, fun i h1 h2 => by
+            have := hall (i + 1) (by simp; omega) (by simp; omega)
+            simpa using this⟩
+          rw [hr] at this; cases this
+      | some tl =>
+        simp only [Option.some.injEq]
+        have ihtl := (ih tl).mp hr
+        constructor
+        · rintro rfl
+          refine ⟨by simp [ihtl.1], ?_⟩
+          intro i h1 h2
+          cases i with
+          | zero => simp [hp]
+          | succ j =>
+            have := ihtl.2 j (by simpa using h1) (by simpa using h2)
+            simpa using this
+        · rintro ⟨hl, hall⟩
+          cases rs with
+          | nil => simp at hl
+          | cons a t =>
+            have h0 := hall 0 (by simp) (by simp)
+            simp only [List.getElem_cons_zero, hp, ParseResult.ok.injEq] at h0
+            have ht : parseRequests rest = some t := (ih t).mpr ⟨by simpa using hl, fun i h1 h2 => by
+              have := hall (i + 1) (by simp; omega) (by simp; omega)
+              simpa using this⟩
+            rw [hr] at ht
+            cases ht
+            obtain ⟨ra, rb⟩ := a
+            simp only at h0
+            rw [h0.1, h0.2]
+
 /-! ## 3. Marking -/
 
 theorem matchesAny_iff (lib : Lib) (s : Spec) (m : Mol) :
